@@ -77,13 +77,13 @@ SEEDS = [
             e('writeAtWithSync(primaryHeaderBytes, primaryHeaderOff,', 'writeAtWithSync(secondaryHeaderBytes, primaryHeaderOff,')]},
  {"name": "c09-array-offsets-same", "properties": ["C09"], "expect": "C09-",
   "edits": [e('secondaryArrayOff := sectorBytes * int64(t.partitionArraySector(false))', 'secondaryArrayOff := sectorBytes * int64(t.partitionArraySector(true))')]},
- {"name": "c09-no-entries-crc", "properties": ["C09", "C15"], "expect": "-f|",
+ {"name": "c09-no-entries-crc", "properties": ["C09", "C15"], "expect": "crc compared",
   "edits": [e('''	if gptTable.partitionEntryChecksum != checksum {
 		return nil, &primaryContentError{fmt.Errorf("invalid EFI Partition Entry Checksum, expected %v, got %v", checksum, gptTable.partitionEntryChecksum)}
 	}
 ''', '''	_ = checksum
 ''')]},
- {"name": "c09-no-header-crc", "properties": ["C09", "C15"], "expect": "-f|",
+ {"name": "c09-no-header-crc", "properties": ["C09", "C15"], "expect": "crc compared",
   "edits": [e('''	if efiHeaderCrc != checksum {
 		return nil, fmt.Errorf("invalid EFI Header Checksum, expected %v, got %v", checksum, efiHeaderCrc)
 	}
